@@ -95,9 +95,15 @@ def gen_domain(rng, discrete_only=False, constraints="maybe", priors="maybe", ma
       comps.append(dict(var_type="quantized", elements=sorted(rng.sample([-7.5, -2.0, -0.25, 0.0, 0.125, 1.0, 3.5, 10.0, 40.0], rng.randint(2, 4)))))
   cons = []
   if constraints != "no":
-    force = constraints == "yes"
+    force = constraints in ("yes", "both")
     dbl = [i for i, c in enumerate(comps) if c["var_type"] == "double"]
     ints = [i for i, c in enumerate(comps) if c["var_type"] == "int"]
+    if constraints == "both" and not discrete_only:
+      comps += [dict(var_type="double", elements=[0.0, 1.0]), dict(var_type="double", elements=[0.0, 7.25]), dict(var_type="int", elements=[0, 4]),
+                dict(var_type="int", elements=[-2, 3])]
+      dbl = [i for i, c in enumerate(comps) if c["var_type"] == "double"]
+      ints = [i for i, c in enumerate(comps) if c["var_type"] == "int"]
+      force = True
     if force and len(dbl) < 2 and len(ints) < 2 and not discrete_only:
       lo = rng.choice([-3.5, 0.0])
       comps += [dict(var_type="double", elements=[lo, lo + 1.0]), dict(var_type="double", elements=[0.0, 7.25])]
@@ -119,6 +125,7 @@ def gen_domain(rng, discrete_only=False, constraints="maybe", priors="maybe", ma
       w[i], w[j] = rng.choice([-1, 1]), rng.choice([-1, 1, 2])
       mid = sum(w[k] * (comps[k]["elements"][0] + comps[k]["elements"][1]) / 2 for k in (i, j))
       cons.append(dict(weights=w, rhs=float(math.floor(mid)) - 1, var_type="int"))
+  rng.shuffle(cons)   # double- and int-typed constraints in any order (positions in the list index the half-space rows)
   pri = None
   if priors != "no" and (priors == "yes" or rng.random() < 0.4) and (not cons or priors == "yes" or rng.random() < 0.5):
     pri = []
@@ -157,7 +164,7 @@ def gen_request(rng, endpoint, **kw):
   return dict(endpoint=endpoint, comps=comps, cons=cons, priors=pri, n_obs=n, nopt=nopt, ncon=ncon, ntask=ntask, npend=npend,
               num_to_sample=num, budget=budget, failp=kw.get("failp", rng.choice([0.0, 0.2, 0.6])), noise=rng.choice([0.0, 1e-3]),
               parallelism=parallelism, dup_heavy=kw.get("dup_heavy", rng.random() < 0.2), thresholds_opt=rng.random() < 0.3,
-              violators=kw.get("violators", True), seed=rng.randint(0, 2 ** 31 - 1))
+              violators=kw.get("violators", True), seed=rng.randint(0, 2 ** 31 - 1), cluster=kw.get("cluster"))
 
 
 def build_params(req):
@@ -175,6 +182,17 @@ def build_params(req):
   n = len(pts)
   nm = req["nopt"] + req["ncon"]
   vals = rng.choice([1.0, 1e3, 1e-3]) * rng.normal(size=(n, nm)) + rng.choice([0, 50.0])
+  cluster = req.get("cluster")
+  if cluster and n >= 8:
+    # the best observations are near-repeats of one location (a converged experiment): the Parzen lower density becomes a needle and the
+    # rejection sampler of the SPE endpoints can exhaust its budget
+    k = 4
+    for r in range(1, k):
+      pts[r] = pts[0]
+      for j, c in enumerate(comps):
+        if c["var_type"] == "double":
+          lo, hi = c["elements"]
+          pts[r, j] = min(hi, max(lo, pts[0, j] + cluster * (hi - lo) * rng.normal()))
   fails = rng.random(n) < req["failp"]
   if fails.all():
     fails[0] = False
@@ -193,6 +211,12 @@ def build_params(req):
   if req["thresholds_opt"] and req["nopt"] == 2:
     for o in oi:
       thr[o] = float(numpy.quantile(vals[:, o], 0.3))
+  if cluster and n >= 8:
+    for col in range(nm):   # ... and they carry the best values of every metric, in the sense of its objective
+      sgn = 1.0 if objs[col] == "maximize" else -1.0
+      spread = float(numpy.abs(vals[:, col]).max()) + 1.0
+      vals[:4, col] = sgn * (spread * 3.0 + 0.01 * spread * numpy.arange(4))
+    fails[:4] = False
   mi = MetricsInfo(requires_pareto_frontier_optimization=(req["nopt"] == 2), observation_budget=req["budget"],
                    user_specified_thresholds=thr, objectives=objs, optimized_metrics_index=oi, constraint_metrics_index=ci)
   ps = PointsContainer(points=pts, values=vals, value_vars=numpy.full_like(vals, req["noise"]), failures=fails,
